@@ -8,7 +8,7 @@ KEYMAP = {
     'more-read-than-written': ['C01'], 'stream-from-nowhere': ['C01', 'C09'], 'empty-chunk': ['C01'],
     'chunk-exceeds-max-length': ['C01'], 'write-returned-bad-count': ['C05', 'C01'],
     'workload-incomplete': ['C02'], 'handshake-never-completed': ['C02'], 'connection-lost-under-fair-loss': ['C02'],
-    'wedge-': ['C02'], 'progress-': ['C02'],
+    'wedge-': ['C02'], 'progress-': ['C02'], 'key-update-': ['C02'],
     'frames-processed-exceed-frames-sent': ['C04'], 'forged-': ['C04'], 'hostile-': ['C03'],
     'amplification-limit-exceeded': ['C07'], 'stateless-reset-': ['C07'], 'stateless-response-': ['C07'], 'short-initial-': ['C07'],
     'connection-lost-reported-twice': ['C08'], 'drained-notified-twice': ['C08'], 'output-after-drained': ['C08', 'C20'],
